@@ -392,6 +392,78 @@ func installNatives(it *Interp) {
 		}
 		return []Value{out}
 	}
+	minMax := func(name string, less func(a, b int64) bool) func(it *Interp, args []Value) []Value {
+		return func(it *Interp, args []Value) []Value {
+			s, _ := args[0].(*SliceV)
+			if s == nil || len(s.elems) == 0 {
+				it.panics(nil, "%s: empty list", name)
+				panic(undecided{name + " of an empty list"})
+			}
+			best, ok := s.elems[0].(int64)
+			if !ok {
+				panic(undecided{name + " of non-integers"})
+			}
+			for _, e := range s.elems[1:] {
+				x, ok := e.(int64)
+				if !ok {
+					panic(undecided{name + " of non-integers"})
+				}
+				if less(x, best) {
+					best = x
+				}
+			}
+			return []Value{best}
+		}
+	}
+	n["slices.Min"] = minMax("slices.Min", func(a, b int64) bool { return a < b })
+	n["slices.Max"] = minMax("slices.Max", func(a, b int64) bool { return a > b })
+	n["slices.BinarySearch"] = func(it *Interp, args []Value) []Value {
+		s, _ := args[0].(*SliceV)
+		target, ok := args[1].(int64)
+		if !ok {
+			panic(undecided{"slices.BinarySearch for a non-integer"})
+		}
+		lo, hi := 0, lenOf(s)
+		for lo < hi {
+			mid := (lo + hi) / 2
+			x, ok := s.elems[mid].(int64)
+			if !ok {
+				panic(undecided{"slices.BinarySearch in non-integers"})
+			}
+			if x < target {
+				lo = mid + 1
+			} else {
+				hi = mid
+			}
+		}
+		found := false
+		if lo < lenOf(s) {
+			if x, ok := s.elems[lo].(int64); ok && x == target {
+				found = true
+			}
+		}
+		return []Value{int64(lo), found}
+	}
+	n["sort.Search"] = func(it *Interp, args []Value) []Value {
+		nn, ok := args[0].(int64)
+		if !ok {
+			panic(undecided{"sort.Search over a non-constant length"})
+		}
+		lo, hi := int64(0), nn
+		for lo < hi {
+			mid := (lo + hi) / 2
+			res := it.callValue(nil, args[1], []Value{mid})
+			if b, ok := res[0].(bool); ok && !b {
+				lo = mid + 1
+			} else {
+				hi = mid
+			}
+		}
+		return []Value{lo}
+	}
+	n["sort.SearchInts"] = func(it *Interp, args []Value) []Value {
+		return n["slices.BinarySearch"](it, args)[:1]
+	}
 	n["slices.CompactFunc"] = func(it *Interp, args []Value) []Value {
 		s, ok := args[0].(*SliceV)
 		if !ok || s == nil {
@@ -508,6 +580,7 @@ type model struct {
 	pendingActionRules []pendingAction
 	extraUsage         map[string]int64
 	args               []string // the argument list handed to Compile (default: just the program name)
+	twin               *model   // the same model before the -switch rewrite (callee contracts are read off it)
 }
 
 func (it *Interp) typeConst(name string) int64 {
